@@ -1,5 +1,6 @@
 """C04 — accessibility of every entity follows Fortran's PUBLIC/PRIVATE rules."""
 import collections
+import json
 
 from harness import core
 from harness.gen import access as A
@@ -107,7 +108,8 @@ def judge_cases(chk, cases, texts, impl, what):
         if code & 1:
             stats["model-mismatch"] += 1
             if not (code & 2 and reg == 0):
-                payload["model"] = chk.coq_eval(IMPORTS, f"model_of {terms[idx]}")
+                if stats["model-mismatch"] <= 3:      # the model's answer, for the first few replays only
+                    payload["model"] = chk.coq_eval(IMPORTS, f"model_of {terms[idx]}")
                 chk.violation("broken-correspondence", payload, False)
     return stats
 
@@ -224,6 +226,8 @@ def html_mismatch(files):
     if full[0] == "EXC":
         return None
     ents, pages, out = full[0], 0, []
+    # interface pages are named after the identifier: only identifiers that occur once in the project
+    gen_count = collections.Counter(n.lower() for el in ents.values() for kd, ow, n, p in el if kd == "KGeneric")
     with F.Work(files) as w:
         data, log, err = F.full_run_inprocess(w.root, {"display": ["public", "private", "protected"]})
         if err:                  # not a C04 matter (and the general generator is not guaranteed valid)
@@ -245,7 +249,7 @@ def html_mismatch(files):
                 out.append({"what": "Visibility column of the module page differs from entity.permission",
                             "module": mod, "page": shown, "permission": want})
             for kd, ow, n, p in elist:
-                if kd == "KGeneric":
+                if kd == "KGeneric" and gen_count[n.lower()] == 1:
                     ip = w.root / "doc" / "interface" / (n.lower() + ".html")
                     if ip.exists():
                         h2 = re.search(r"<h2>\s*(\w+)\s+interface\s", ip.read_text())
@@ -308,6 +312,16 @@ def run(chk):
         chk.coqchk(["Ford.Props.C04"])
     stats = collections.Counter()
 
+    # (0) saved corpus: witnesses of the recorded regions, edge cases of the model
+    corpus = json.load(open(core.VERIF / "corpus" / "C04" / "cases.json"))["cases"]
+    texts, impl = run_cases(chk, corpus, rng)
+    for c in corpus:
+        chk.count(("corpus", c["name"]), sample={"corpus": c["name"], "fortran": texts[c["name"]],
+                                                "impl": impl[c["name"]]})
+    st = judge_cases(chk, corpus, texts, impl, "corpus case")
+    if st is not None:
+        stats.update({f"corpus:{k}": v for k, v in st.items()})
+
     # (1) the exhaustive product named in the property, each cell embedded in a random module
     reps = 1 if quick else 6
     cells = A.cells()
@@ -323,6 +337,7 @@ def run(chk):
     if st is not None:
         stats.update(st)
     chk.extra["exhaustive"] = {"cells": len(cells), "repetitions": reps,
+                               "cells_by_kind": dict(collections.Counter(c["kind"] for c in cells)),
                                "domain": "kind(10) x default{none,public,private}x{early,late} x attribute"
                                          "{none,public,private,protected} x statement{none,public,private}x"
                                          "{before,after}; inexpressible combinations omitted"}
